@@ -282,7 +282,7 @@ def selections(K, full=False):
 
 
 def place(items, placement, env, keytype=None, cut_datatype=None, schema_handler=None, cuts_handler=None,
-          mids_handler=None, schema_datatype=None, cut_extends=None, cut_keytype=None):
+          mids_handler=None, schema_datatype=None, cut_extends=None, cut_keytype=None, schema_keytype=None):
     """Build the schema whose container-under-test holds `items`.
     placement 0: the schema itself; 1: section type 'cut' reachable through a
     '*' multisection at top; 2: 'cut' inside 'mid' inside the schema."""
@@ -291,19 +291,19 @@ def place(items, placement, env, keytype=None, cut_datatype=None, schema_handler
     cut = SType("cut", items, keytype=cut_keytype or keytype, datatype=cut_datatype, extends=cut_extends)
     if placement == 1:
         s = Schema(types=env + (cut,), items=(Sect("*", "cut", attribute="cuts", multi=True, handler=cuts_handler),),
-                   handler=schema_handler, datatype=schema_datatype)
+                   handler=schema_handler, datatype=schema_datatype, keytype=schema_keytype)
         return s, [("o", "cut", None)]
     mid = SType("mid", (Sect("*", "cut", attribute="cuts", multi=True, handler=cuts_handler),
                         Key("mk", default="md")))
     s = Schema(types=env + (cut, mid), items=(Sect("*", "mid", attribute="mids", multi=True, handler=mids_handler),),
-               handler=schema_handler, datatype=schema_datatype)
+               handler=schema_handler, datatype=schema_datatype, keytype=schema_keytype)
     return s, [("o", "mid", None), ("o", "cut", None)]
 
 
 # ---------------------------------------------------------------------------
 # event vocabulary of a container (what texts are assembled from)
 
-BAD_KEY_TOKEN = {"basic-key": "1x", "identifier": "a-b", "ipaddr-or-hostname": "-x"}
+BAD_KEY_TOKEN = {"basic-key": "1x", "identifier": "a-b", "ipaddr-or-hostname": "-x", "vz.harness.dt.lower_key": "a-b"}
 
 VALUE_TOKENS = {
     "string": ["v"],
